@@ -284,77 +284,75 @@ theorem shape_bld (e : Expr) : ShapeE e := by
       have kv : AllOk (itV c x y b σ).2.2 := ihy .val (σ.len + 1) (itU c x b σ).2.2 (by omega) (by rw [heb2]) ku
       exact allOk_mergeSt kv _ _ (by omega) gv.lt huv (by rw [hvu]; exact gu.opn) gv.opn
 
-theorem shape_build (s : Stmt) : ∀ (prev b : Nat) (J : Jumps) (σ : BState), noFor s = true → b < σ.len →
+theorem shape_build (s : Stmt) : ∀ (prev b : Nat) (J : Jumps) (σ : BState), b < σ.len →
     (σ.blk b).succs = [] → AllOk σ → AllOk (build s prev (some b) J σ).1 := by
   induction s with
-  | nil => intro prev b J σ _ _ _ h; exact h
-  | pass => intro prev b J σ _ _ _ h; exact h
+  | nil => intro prev b J σ _ _ h; exact h
+  | pass => intro prev b J σ _ _ h; exact h
   | cons s rest ihs ihr =>
-    intro prev b J σ hn hb ho h
-    simp only [noFor, Bool.and_eq_true] at hn
+    intro prev b J σ hb ho h
     simp only [build, ensure_some]
-    have g1 := build_good s b b J σ hn.1 hb ho
-    have k1 := ihs b b J σ hn.1 hb ho h
+    have g1 := build_good s b b J σ hb ho
+    have k1 := ihs b b J σ hb ho h
     cases hr : (build s b (some b) J σ).2 with
     | some b1 =>
       obtain ⟨_, c2, c3⟩ := g1.cur b1 hr
-      exact ihr b b1 J _ hn.2 c2 c3 k1
+      exact ihr b b1 J _ c2 c3 k1
     | none =>
       by_cases hnil : rest = .nil
       · subst hnil; simp only [build]; exact k1
       · rw [build_ensure rest hnil, ensure_none]
         have hl1 := g1.touch.len
-        exact ihr b _ J _ hn.2 (by simp) (by rw [blk_dummyLink_other _ _ _ _ (by omega), blk_newBB_new])
+        exact ihr b _ J _ (by simp) (by rw [blk_dummyLink_other _ _ _ _ (by omega), blk_newBB_new])
           (allOk_dummyLink (allOk_newBB k1) _ _)
   | assign x e =>
-    intro prev b J σ _ hb ho h
+    intro prev b J σ hb ho h
     simp only [build, ensure_some, buildE]
     exact allOk_addStmt (shape_bld e .val b σ hb ho h) _ _
   | aug x op e =>
-    intro prev b J σ _ hb ho h
+    intro prev b J σ hb ho h
     simp only [build, ensure_some, buildE]
     exact allOk_addStmt (shape_bld e .val b σ hb ho h) _ _
   | expr e =>
-    intro prev b J σ _ hb ho h
+    intro prev b J σ hb ho h
     simp only [build, ensure_some, buildE]
     cases isTmpVar (bld e .val b σ).1
     · exact allOk_addStmt (shape_bld e .val b σ hb ho h) _ _
     · exact shape_bld e .val b σ hb ho h
   | brk =>
-    intro prev b J σ _ hb ho h
+    intro prev b J σ hb ho h
     simp only [build, ensure_some]
     split
     · exact allOk_link h _ ho
     · exact h
   | cont =>
-    intro prev b J σ _ hb ho h
+    intro prev b J σ hb ho h
     simp only [build, ensure_some]
     split
     · exact allOk_link h _ ho
     · exact h
   | ret e =>
-    intro prev b J σ _ hb ho h
+    intro prev b J σ hb ho h
     simp only [build, ensure_some, buildE]
     have g : GoodV σ b (bld e .val b σ).2.1 (bld e .val b σ).2.2 := bld_good e .val b σ hb ho
     exact allOk_link (allOk_addStmt (shape_bld e .val b σ hb ho h) _ _) _
       (by rw [blk_addStmt_same _ _ _ g.lt]; exact g.opn)
   | ret0 =>
-    intro prev b J σ _ hb ho h
+    intro prev b J σ hb ho h
     simp only [build, ensure_some]
     exact allOk_link (allOk_addStmt h _ _) _ (by rw [blk_addStmt_same _ _ _ hb]; exact ho)
   | ite c t e iht ihe =>
-    intro prev b J σ hn hb ho h
-    simp only [noFor, Bool.and_eq_true] at hn
+    intro prev b J σ hb ho h
     obtain ⟨t1, hl1, htb, heb, hb', ho', _⟩ := itS1_facts c hb ho
     have k1 : AllOk (itS1 c b σ) := shape_bld c (.br σ.len (σ.len + 1)) b _ hb' ho' (allOk_newBB (allOk_newBB h))
-    have gt := build_good t σ.len σ.len J (itS1 c b σ) hn.1 (by omega) (by rw [htb])
-    have kt := iht σ.len σ.len J (itS1 c b σ) hn.1 (by omega) (by rw [htb]) k1
+    have gt := build_good t σ.len σ.len J (itS1 c b σ) (by omega) (by rw [htb])
+    have kt := iht σ.len σ.len J (itS1 c b σ) (by omega) (by rw [htb]) k1
     have hlt := gt.touch.len
     have hebc := gt.touch.frame (σ.len + 1) (by omega) (by omega)
     have heb2 : ((build t σ.len (some σ.len) J (itS1 c b σ)).1.blk (σ.len + 1)).succs = [] := by
       rw [core_succs hebc, heb]
-    have ge := build_good e (σ.len + 1) (σ.len + 1) J _ hn.2 (by omega) heb2
-    have ke := ihe (σ.len + 1) (σ.len + 1) J _ hn.2 (by omega) heb2 kt
+    have ge := build_good e (σ.len + 1) (σ.len + 1) J _ (by omega) heb2
+    have ke := ihe (σ.len + 1) (σ.len + 1) J _ (by omega) heb2 kt
     have hle := ge.touch.len
     rw [build_ite_eq]
     cases hrt : (build t σ.len (some σ.len) J (itS1 c b σ)).2 with
@@ -373,8 +371,7 @@ theorem shape_build (s : Stmt) : ∀ (prev b : Nat) (J : Jumps) (σ : BState), n
             rw [blk_newBB_old _ _ (by omega), core_succs hca]; exact a3)) _ (by
             rw [blk_link_other _ _ _ _ (Ne.symm hab), blk_newBB_old _ _ d2]; exact d3)
   | «while» c body ih =>
-    intro prev b J σ hn hb ho h
-    simp only [noFor] at hn
+    intro prev b J σ hb ho h
     obtain ⟨l0, _, _, fh, _, _, _⟩ := whS0_facts hb ho
     obtain ⟨t1, hl1, fb, fbb, ftl, t01⟩ := whS1_facts c hb ho
     have k0 : AllOk (whS0 b σ) := by
@@ -382,17 +379,62 @@ theorem shape_build (s : Stmt) : ∀ (prev b : Nat) (J : Jumps) (σ : BState), n
       exact allOk_newBB (allOk_newBB (allOk_link (allOk_newBB h) _ (by rw [blk_newBB_old _ _ hb]; exact ho)))
     have k1 : AllOk (whS1 c b σ) := shape_bld c (.br (σ.len + 1) (σ.len + 2)) σ.len (whS0 b σ) (by omega) (by rw [fh]) k0
     have gb : GoodS (whS1 c b σ) (σ.len + 1) (whRB c body b J σ) :=
-      build_good body (σ.len + 1) (σ.len + 1) (whJ J σ) (whS1 c b σ) hn (by omega) (by rw [fbb])
-    have kb : AllOk (whRB c body b J σ).1 := ih (σ.len + 1) (σ.len + 1) (whJ J σ) (whS1 c b σ) hn (by omega) (by rw [fbb]) k1
+      build_good body (σ.len + 1) (σ.len + 1) (whJ J σ) (whS1 c b σ) (by omega) (by rw [fbb])
+    have kb : AllOk (whRB c body b J σ).1 := ih (σ.len + 1) (σ.len + 1) (whJ J σ) (whS1 c b σ) (by omega) (by rw [fbb]) k1
     rw [build_while_eq]
     cases hrb : (whRB c body b J σ).2 with
-    | none => simp only [whFin, hrb]; exact kb
+    | none => simp only [loopFin, hrb]; exact kb
     | some e =>
       obtain ⟨_, _, e3⟩ := gb.cur e hrb
-      simp only [whFin, hrb]
+      simp only [loopFin, hrb]
       exact allOk_link kb _ e3
-  | «for» x e body ih => intro prev b J σ hn; simp [noFor] at hn
-  | forFrom x n m body ih => intro prev b J σ hn; simp [noFor] at hn
+  | «for» x e body ih =>
+    intro prev b J σ hb ho h
+    have gA : GoodV (freshTmp (freshTmp σ).2).2 b (forA e b σ).2.1 (forA e b σ).2.2 :=
+      bld_good e .val b (freshTmp (freshTmp σ).2).2 hb ho
+    have kA : AllOk (forA e b σ).2.2 := shape_bld e .val b (freshTmp (freshTmp σ).2).2 hb ho h
+    have k1 : AllOk (forS1 e b σ) := allOk_addStmt kA _ _
+    have g1lt : (forA e b σ).2.1 < (forS1 e b σ).len := by
+      show _ < (addStmt _ _ (forA e b σ).2.2).len
+      simpa using gA.lt
+    have g1o : ((forS1 e b σ).blk (forA e b σ).2.1).succs = [] := by
+      show ((addStmt _ _ (forA e b σ).2.2).blk _).succs = []
+      rw [blk_addStmt_same _ _ _ gA.lt]; exact gA.opn
+    obtain ⟨f1, _, f3, f4, f5, f6, f7, f8, f9⟩ :=
+      forTpl_facts x σ.nextTmp (σ.nextTmp + 1) g1lt g1o
+    have k7 : AllOk (forS7 x e b σ) := by
+      intro i
+      show okB ((forTpl x σ.nextTmp (σ.nextTmp + 1) (forA e b σ).2.1 (forS1 e b σ)).blk i)
+      by_cases h0 : i = (forA e b σ).2.1
+      · rw [h0, f3]; exact ⟨by simp, by intro h; simp at h⟩
+      by_cases h1 : i < (forS1 e b σ).len
+      · rw [f9 i h1 h0]; exact k1 i
+      by_cases h2 : i = (forS1 e b σ).len
+      · rw [h2, f4]; exact ⟨by simp, by intro h; simp at h⟩
+      by_cases h3 : i = (forS1 e b σ).len + 1
+      · rw [h3, f5]; exact ⟨by simp, by intro _; simp⟩
+      by_cases h4 : i = (forS1 e b σ).len + 2
+      · rw [h4, f6]; exact okB_empty
+      by_cases h5 : i = (forS1 e b σ).len + 3
+      · rw [h5, f7]; exact ⟨by simp, by intro h; simp at h⟩
+      by_cases h6 : i = (forS1 e b σ).len + 4
+      · rw [h6, f8]; exact ⟨by simp, by intro h; simp at h⟩
+      · rw [empty_of_ge _ (by rw [f1]; omega)]; exact okB_empty
+    obtain ⟨_, _, hl7, _, _, _, _, _, _, feb⟩ := forS7_facts x e hb ho
+    have gb : GoodS (forS7 x e b σ) ((forS1 e b σ).len + 4) (forRB x e body b J σ) :=
+      build_good body _ _ (forJ J e b σ) (forS7 x e b σ) (by omega) (by rw [feb])
+    have kb : AllOk (forRB x e body b J σ).1 := ih _ _ (forJ J e b σ) (forS7 x e b σ) (by omega) (by rw [feb]) k7
+    rw [build_for_eq]
+    cases hrb : (forRB x e body b J σ).2 with
+    | none => simp only [loopFin, hrb]; exact kb
+    | some e' =>
+      obtain ⟨_, _, e3⟩ := gb.cur e' hrb
+      simp only [loopFin, hrb]
+      exact allOk_link kb _ e3
+  | forFrom x n m body ih =>
+    intro prev b J σ hb ho h
+    simp only [build, ensure_some]
+    exact h
 
 theorem okB_of_core {A B : Block} (h : A.core = B.core) (hB : okB B) : okB A := by
   unfold okB at hB ⊢
@@ -415,7 +457,7 @@ theorem okB_prune (bl : List Block) (h : ∀ i, okB (blkL bl i)) (i : Nat) : okB
 
 /-- **every block of a built CFG has at most two successors, and a block with two successors has a branch
     predicate** -/
-theorem buildCfg_shape {p : Stmt} {rn : Bool} {g : Cfg} (hn : noFor p = true) (hb : buildCfg rn p = .ok g) :
+theorem buildCfg_shape {p : Stmt} {rn : Bool} {g : Cfg} (hb : buildCfg rn p = .ok g) :
     ∀ i, okB (blkL g.blocks i) := by
   have h02 : (0 : Nat) < initState.len := by decide
   have ho0 : (initState.blk 0).succs = [] := by decide
@@ -426,8 +468,8 @@ theorem buildCfg_shape {p : Stmt} {rn : Bool} {g : Cfg} (hn : noFor p = true) (h
     · by_cases h1 : i = 1
       · subst h1; exact okB_empty
       · rw [empty_of_ge _ (by show 2 ≤ i; omega)]; exact okB_empty
-  have gr := build_good p 0 0 ⟨1, none, none⟩ initState hn h02 ho0
-  have kr := shape_build p 0 0 ⟨1, none, none⟩ initState hn h02 ho0 hinit
+  have gr := build_good p 0 0 ⟨1, none, none⟩ initState h02 ho0
+  have kr := shape_build p 0 0 ⟨1, none, none⟩ initState h02 ho0 hinit
   simp only [buildCfg] at hb
   generalize build p 0 (some 0) ⟨1, none, none⟩ initState = r at *
   split at hb
